@@ -609,7 +609,7 @@ impl Runner {
                 // call >= 1000: the (call-1000)-th fsync fails: the outcome may be the pre- or the
                 // post-state, whichever it is must be complete and later commits must work
                 let before_model = self.model.clone();
-                self.fault_next_commit = Some(crate::iosim::Fault { call_index: *call, mode: crate::iosim::FaultMode::Errno(libc::EIO) });
+                self.fault_next_commit = Some(if *call >= 1000 { crate::iosim::Fault::nth(crate::iosim::Kind::Fsync, *call - 1000, libc::EIO) } else { crate::iosim::Fault::at(*call, crate::iosim::FaultMode::Errno(libc::EIO)) });
                 let inner = self.step(&Action::Tx { ops: ops.clone(), commit: true }, &Oracles::NONE);
                 out.extend(inner);
                 self.fault_next_commit = None;
